@@ -575,7 +575,11 @@ class StateEngine(object):
         """
         data = event["data"]
 
-        execution_failed = isinstance(data, dict) and data.get("Error")
+        # Failure is signalled out-of-band by the "failed" marker set on the
+        # event by handle_error, the Fail state and the timeout backstop, as
+        # the output of a successful state may itself have an "Error" field.
+        execution_failed = (event.get("failed", False) and
+                            isinstance(data, dict) and data.get("Error"))
 
         """
         For Execution timeouts we use States.ExecutionTimeout to disambiguate
@@ -1242,7 +1246,8 @@ class StateEngine(object):
                         f"timeout value of {execution_timeout} seconds. " +
                         "Forcing clean up of outstanding events." ,
                 },
-                "context": branch_metadata.context
+                "context": branch_metadata.context,
+                "failed": True
             }
 
             # This should force ExecutionFailed and subsequent clean up
@@ -1688,6 +1693,7 @@ class StateEngine(object):
                 if error_message:
                     result["Cause"] = boiler_plate + error_message
                 event["data"] = result
+                event["failed"] = True  # Out-of-band failure marker
                 handle_terminal_state(state_type, event)
 
 
@@ -1701,7 +1707,8 @@ class StateEngine(object):
             execution_arn = context["Execution"]["Id"]
 
             data = event["data"]
-            error = isinstance(data, dict) and data.get("Error")
+            error = (event.get("failed", False) and
+                     isinstance(data, dict) and data.get("Error"))
             task_terminated = error == "Task.Terminated"
 
             if "Branch" in context["State"]:
@@ -1734,6 +1741,7 @@ class StateEngine(object):
                         del context["State"]["Branch"]
                         self.end_execution(state_machine, state_type, event)
                     else:
+                        event.pop("failed", None)  # The enclosing state may handle it
                         handle_error(state, data.get("Error"), data.get("Cause"))
                 else:
                     asl_state_collect_results(state_type)
@@ -2565,6 +2573,7 @@ class StateEngine(object):
                 "Error": state.get("Error", "Unspecified"),
                 "Cause": state.get("Cause", "Unspecified"),
             }
+            event["failed"] = True  # Out-of-band failure marker
 
             handle_terminal_state(state_type, event, id)
 
@@ -3022,9 +3031,10 @@ class StateEngine(object):
             data = event["data"]
 
             # Get error info from data object if it is present.
-            if isinstance(data, dict):
+            if event.get("failed", False) and isinstance(data, dict):
                 error = data.get("Error")
                 cause = data.get("Cause")
+                del event["failed"]  # The Parallel/Map state may handle it
             else:
                 error = None
                 cause = None
